@@ -688,3 +688,265 @@ Proof.
     split; [vm_compute; reflexivity|]. split; [vm_compute; reflexivity|].
     split; [apply ex_hyps|]. split; [vm_compute; reflexivity|]. split; vm_compute; reflexivity.
 Qed.
+
+(* ====================================================================================================
+   Part 4: the same over the complete model of get_toc (Model/TocNamed.v: get_named_destinations is run first),
+           for ANY catalog.  Whether the name tree is readable is decided on the document that is read:
+           * table format: the loaded objects are the saved ones up to number normalisation and equally many, so
+             get_named_destinations takes the same path ([readable_reload]) -- the statement is about d2 only;
+           * stream format: the loaded document holds one object more (a larger kid budget, and a reference that
+             dangled before may now resolve), so the condition is stated on the loaded document.
+   ==================================================================================================== *)
+From LV Require Model.TocNamed Proofs.OutlineProofsNamed.
+
+Lemma built_facts_any b f cid rid cat fuel :
+  bookmarks b = map iid f -> f <> [] -> Forall (trepr (bookmark_table b)) f ->
+  let d := base b in let m0 := d_max_id d in
+  max_id_bounds d -> m0 + 1 + 2 * N.of_nat (fsize f) + 2 < u32_mod ->
+  root_id d = Some cid -> get_object_mut_id (d_objects d) cid = Some (rid, ODict cat) ->
+  (fheight f <= fuel)%nat ->
+  exists b' f',
+    numbered (m0 + 1) f f' (m0 + 1 + 2 * N.of_nat (fsize f)) /\
+    build_outline fuel b = OOk (Some (m0 + 1, 0), b') /\
+    let d2 := attach (base b') cid (m0 + 1, 0) in
+    holds_any d2 (m0 + 1) f' /\
+    d_trailer d2 = d_trailer d /\
+    (savable d -> known_deep d = false -> tbl_ok (bookmark_table b) -> savable d2 /\ known_deep d2 = false) /\
+    (forall pcat i g ks, catalog d = Some pcat -> dict_get pcat K_Pages = Some (ORef i g) -> tree_wf d (PNode (i, g) ks) ->
+       exists pcat', catalog d2 = Some pcat' /\ dict_get pcat' K_Pages = Some (ORef i g) /\ tree_wf d2 (PNode (i, g) ks)).
+Proof.
+  intros Hroots Hne Htr d m0 Hmax Hlim Hroot Hcat Hfuel.
+  assert (Hlim' : m0 + 1 + 2 * N.of_nat (fsize f) < U32_LIMIT) by (unfold U32_LIMIT, u32_mod in *; lia).
+  destruct (build_holds_any b f cid rid cat fuel Hroots Hne Htr Hmax Hlim' Hroot Hcat Hfuel) as [b' [f' [Hn [Hbuild [Hholds _]]]]].
+  fold d m0 in Hn, Hbuild, Hholds.
+  exists b', f'. split; [exact Hn|]. split; [exact Hbuild|]. intro d2. split; [exact Hholds|].
+  destruct (final_objects b f cid rid cat fuel b' Hroots Hne Htr Hmax Hlim' Hroot Hcat Hfuel Hbuild)
+    as [Htrailer [Hrid [Hrid2 Hkeep]]]. fold d m0 d2 in Htrailer, Hrid, Hrid2, Hkeep.
+  split; [exact Htrailer|]. split.
+  - intros S K Ht.
+    destruct (build_outline_ok b f fuel Hroots Hne Htr Hfuel Hlim')
+      as [f'' [b'' [_ [Hbuild' [Hmax' [Htr' [_ [Hframe _]]]]]]]].
+    fold d m0 in Hbuild', Hmax', Htr', Hframe. rewrite Hbuild in Hbuild'. inversion Hbuild'; subst b''. clear Hbuild'.
+    assert (Hext : extends (d_objects d) (d_objects (base b'))).
+    { intros id o Hl. rewrite Hframe; [exact Hl|]. intros [Hc _]. apply Hmax in Hl. fold m0 in Hl. lia. }
+    assert (Hroot1 : root_id (base b') = Some cid) by (unfold root_id in *; rewrite Htr'; exact Hroot).
+    assert (Hcat1 : get_object_mut_id (d_objects (base b')) cid = Some (rid, ODict cat)).
+    { unfold get_object_mut_id in *. destruct (lookup (d_objects d) cid) as [o|] eqn:E; [|discriminate].
+      rewrite (Hext _ _ E). unfold dereference in *.
+      destruct (deref_aux (d_objects d) (N.to_nat DEREF_LIMIT) None o) as [r|] eqn:D; [|discriminate].
+      rewrite (deref_extends _ _ Hext _ _ _ _ D). exact Hcat. }
+    assert (Hr : in_i64 (Z.of_nat (length (bookmarks b))) = true).
+    { apply in_i64_small. rewrite Hroots, map_length. pose proof (length_le_fsize f). lia. }
+    destruct (build_attach_savable fuel b (m0 + 1) b' cid rid cat Hbuild S K Hmax Ht Hr Hroot1 Hcat1) as [S2 [K2 _]];
+      [rewrite Hmax'; lia | rewrite Hmax'; exact Hlim | split; assumption].
+  - intros pcat i g ks Hpcat Hpages [Hrep Hnd].
+    pose proof (sim_cat_with cat (m0 + 1, 0)) as Hsim.
+    assert (Hcat2 : exists pcat', catalog d2 = Some pcat' /\ sim_dict pcat pcat').
+    { unfold catalog in *. rewrite Htrailer. destruct (dict_get (d_trailer d) K_Root) as [[]|]; try discriminate.
+      apply (get_dictionary_final _ _ rid cat _ Hkeep Hrid Hrid2 Hsim _ _ Hpcat). }
+    destruct Hcat2 as [pcat' [Hpcat' Sm]]. exists pcat'. split; [exact Hpcat'|]. split.
+    + rewrite (Sm K_Pages) by discriminate. exact Hpages.
+    + split; [|exact Hnd]. apply (represents_final _ _ rid cat _ Hkeep Hrid Hrid2 Hsim). exact Hrep.
+Qed.
+
+(* the forward simulation of Proofs/ComposeReload.v for [holds_any] *)
+Lemma holds_any_fwd d d' r f :
+  (forall id o, lookup (d_objects d) id = Some o -> lookup (d_objects d') id = Some (norm_obj o)) ->
+  dict_get (d_trailer d') K_Root = dict_get (d_trailer d) K_Root ->
+  (length (d_objects d) <= length (d_objects d'))%nat ->
+  holds_any d r f -> holds_any d' r f.
+Proof.
+  intros fwd root count [cat [H1 [H2 [H4 [H5 H6]]]]]. exists (norm_dict cat).
+  split; [apply (catalog_fwd d d' fwd root); exact H1|].
+  split; [rewrite dict_get_norm, H2; reflexivity|].
+  split; [apply (outline_ok_fwd _ _ fwd); exact H4|].
+  split; [exact H5 | lia].
+Qed.
+
+(* TABLE format, ANY catalog, no hypothesis on the page tree *)
+Theorem reads_back_after_save_load_table_nm b f cid rid cat fuel fuel2 :
+  bookmarks b = map iid f -> f <> [] -> Forall (trepr (bookmark_table b)) f ->
+  let d := base b in let m0 := d_max_id d in
+  max_id_bounds d -> m0 + 1 + 2 * N.of_nat (fsize f) + 2 < u32_mod ->
+  root_id d = Some cid -> get_object_mut_id (d_objects d) cid = Some (rid, ODict cat) ->
+  distinct_titles f -> scalar_titles f -> N.of_nat (fheight f) <= OUTLINE_DEPTH_LIMIT + 1 ->
+  (fheight f <= fuel)%nat -> (fsize f <= fuel2)%nat ->
+  savable d -> known_deep d = false -> tbl_ok (bookmark_table b) ->
+  exists b',
+    build_outline fuel b = OOk (Some (m0 + 1, 0), b') /\
+    let d2 := attach (base b') cid (m0 + 1, 0) in
+    savable d2 /\ known_deep d2 = false /\
+    (small_file XTable d2 -> targets_are_pages d2 f ->
+     exists d', load (so_bytes (save XTable d2)) = LOk d' XTTable /\
+                get_pages d' = get_pages d2 /\
+                TocNamed.name_tree_readable d' = TocNamed.name_tree_readable d2 /\
+                TocNamed.get_toc fuel2 d' = OutlineProofsNamed.toc_or_err d2 f).
+Proof.
+  intros Hroots Hne Htr d m0 Hmax Hlim Hroot Hcat Hdist Hscal Hdeep Hfuel Hfuel2 S K Ht.
+  destruct (built_facts_any b f cid rid cat fuel Hroots Hne Htr Hmax Hlim Hroot Hcat Hfuel)
+    as [b' [f' [Hn [Hbuild Hrest]]]]. fold d m0 in Hn, Hbuild, Hrest.
+  exists b'. split; [exact Hbuild|]. intro d2. cbv zeta in Hrest. fold d2 in Hrest.
+  destruct Hrest as [Hholds [Htrailer [Hsav _]]]. destruct (Hsav S K Ht) as [S2 K2].
+  split; [exact S2|]. split; [exact K2|]. intros Hsmall Htargets.
+  exists (reloaded XTable d2). split; [apply (load_save_one XTable d2 S2 K2 Hsmall)|].
+  assert (C1 : dict_get (d_trailer (reloaded XTable d2)) K_Root = dict_get (d_trailer d2) K_Root).
+  { apply (reloaded_root XTable d2 (fst cid) (snd cid) S2). rewrite Htrailer. apply root_ref. exact Hroot. }
+  assert (C2 : forall id, lookup (d_objects (reloaded XTable d2)) id = option_map (nn norm_real) (lookup (d_objects d2) id)).
+  { intro id. apply (reloaded_table_lookup d2 S2). }
+  pose proof (reloaded_table_length d2 S2) as C3.
+  pose proof (get_pages_reload norm_real norm_real_num d2 _ C1 C2 C3) as Hpages.
+  pose proof (readable_reload norm_real norm_real_num d2 _ C1 C2 C3) as Hread.
+  split; [exact Hpages|]. split; [exact Hread|].
+  destruct (numbered_conditions _ _ _ _ fuel2 Hn Hdist Hscal Hdeep Hfuel2) as [Hrows [K1 [K2' K3]]].
+  unfold OutlineProofsNamed.toc_or_err, expected_toc. rewrite <- Hread, <- Hrows, <- Hpages.
+  apply (OutlineProofsNamed.toc_of_holds_any _ (m0 + 1) f' fuel2
+           (holds_any_reload norm_real norm_real_num d2 _ C1 C2 C3 _ _ Hholds) K1 K2' K3).
+  rewrite Hpages, Hrows. apply rows_ok; assumption.
+Qed.
+
+(* EITHER format, ANY catalog, page trees meeting C12's hypotheses: page numbers of the ORIGINAL document *)
+Theorem reads_back_after_save_load_nm b f cid rid cat fuel fuel2 xt pcat i g ks :
+  bookmarks b = map iid f -> f <> [] -> Forall (trepr (bookmark_table b)) f ->
+  let d := base b in let m0 := d_max_id d in
+  max_id_bounds d -> m0 + 1 + 2 * N.of_nat (fsize f) + 2 < u32_mod ->
+  root_id d = Some cid -> get_object_mut_id (d_objects d) cid = Some (rid, ODict cat) ->
+  distinct_titles f -> scalar_titles f -> N.of_nat (fheight f) <= OUTLINE_DEPTH_LIMIT + 1 ->
+  (fheight f <= fuel)%nat -> (fsize f <= fuel2)%nat ->
+  savable d -> known_deep d = false -> tbl_ok (bookmark_table b) ->
+  catalog d = Some pcat -> dict_get pcat K_Pages = Some (ORef i g) ->
+  tree_wf d (PNode (i, g) ks) -> (N.of_nat (height (PNode (i, g) ks)) <= PAGE_TREE_DEPTH_LIMIT + 1)%N ->
+  exists b',
+    build_outline fuel b = OOk (Some (m0 + 1, 0), b') /\
+    let d2 := attach (base b') cid (m0 + 1, 0) in
+    savable d2 /\ known_deep d2 = false /\
+    (small_file xt d2 -> targets_are_pages d f ->
+     exists d', load (so_bytes (save xt d2)) = LOk d' (xtype_of xt) /\
+                get_pages d' = get_pages d /\
+                TocNamed.get_toc fuel2 d' = if TocNamed.name_tree_readable d' then TOk (expected_toc d f) 0 else TErr).
+Proof.
+  intros Hroots Hne Htr d m0 Hmax Hlim Hroot Hcat Hdist Hscal Hdeep Hfuel Hfuel2 S K Ht Hpcat Hpg Hwf Hh.
+  destruct (built_facts_any b f cid rid cat fuel Hroots Hne Htr Hmax Hlim Hroot Hcat Hfuel)
+    as [b' [f' [Hn [Hbuild Hrest]]]]. fold d m0 in Hn, Hbuild, Hrest.
+  exists b'. split; [exact Hbuild|]. intro d2. cbv zeta in Hrest. fold d2 in Hrest.
+  destruct Hrest as [Hholds [Htrailer [Hsav Htree]]]. destruct (Hsav S K Ht) as [S2 K2].
+  split; [exact S2|]. split; [exact K2|]. intros Hsmall Htargets.
+  destruct (Htree pcat i g ks Hpcat Hpg Hwf) as [pcat' [Hpcat' [Hpg' Hwf']]].
+  set (d' := reloaded xt d2).
+  exists d'. split; [apply (load_save_one xt d2 S2 K2 Hsmall)|].
+  assert (C1 : dict_get (d_trailer d') K_Root = dict_get (d_trailer d2) K_Root).
+  { apply (reloaded_root xt d2 (fst cid) (snd cid) S2). rewrite Htrailer. apply root_ref. exact Hroot. }
+  assert (P0 : page_iter d = leaves (PNode (i, g) ks)) by (apply (page_iter_dfs d pcat i g ks); assumption).
+  destruct (page_iter_after_reload xt d2 pcat' i g ks S2 Hpcat' Hpg' Hwf' Hh) as [_ P2]. fold d' in P2.
+  assert (Hpages : get_pages d' = get_pages d) by (unfold get_pages; rewrite P2, P0; reflexivity).
+  split; [exact Hpages|].
+  destruct (numbered_conditions _ _ _ _ fuel2 Hn Hdist Hscal Hdeep Hfuel2) as [Hrows [K1 [K2' K3]]].
+  unfold expected_toc. rewrite <- Hrows, <- Hpages.
+  assert (Hh' : holds_any d' (m0 + 1) f').
+  { apply (holds_any_fwd d2 d' _ _ (reloaded_lookup_fwd xt d2 S2) C1 (reloaded_length_le xt d2 S2)). exact Hholds. }
+  apply (OutlineProofsNamed.toc_of_holds_any d' (m0 + 1) f' fuel2 Hh' K1 K2' K3).
+  rewrite Hpages, Hrows. apply rows_ok; assumption.
+Qed.
+
+(* ---------- over add_bookmark calls ---------- *)
+Theorem reads_back_ops_after_save_load_table_nm d ops cid rid cat fuel2 :
+  let b := add_all (fresh_bdoc d) ops in
+  let f := forest_of_ops (map sop_of ops) in
+  let m0 := d_max_id d in
+  f <> [] -> max_id_bounds d -> m0 + 1 + 2 * N.of_nat (fsize f) + 2 < u32_mod ->
+  root_id d = Some cid -> get_object_mut_id (d_objects d) cid = Some (rid, ODict cat) ->
+  distinct_titles f -> scalar_titles f -> too_deep f = false -> (fsize f <= fuel2)%nat ->
+  savable d -> known_deep d = false -> Forall op_ok ops -> N.of_nat (length ops) < u32_mod ->
+  exists b',
+    build_outline (default_fuel b) b = OOk (Some (m0 + 1, 0), b') /\
+    let d2 := attach (base b') cid (m0 + 1, 0) in
+    savable d2 /\ known_deep d2 = false /\
+    (small_file XTable d2 -> targets_are_pages d2 f ->
+     exists d', load (so_bytes (save XTable d2)) = LOk d' XTTable /\
+                get_pages d' = get_pages d2 /\
+                TocNamed.name_tree_readable d' = TocNamed.name_tree_readable d2 /\
+                TocNamed.get_toc fuel2 d' = OutlineProofsNamed.toc_or_err d2 f).
+Proof.
+  intros b f m0 Hne Hmax Hlim Hroot Hcat Hdist Hscal Hdeep Hfuel2 S K Hops Hlen.
+  destruct (add_all_repr d ops) as [Hbase [Hroots [Htr Hdf]]]. fold b f in Hbase, Hroots, Htr, Hdf.
+  pose proof (reads_back_after_save_load_table_nm b f cid rid cat (default_fuel b) fuel2 Hroots Hne Htr) as H.
+  cbv zeta in H. rewrite Hbase in H. fold m0 in H.
+  apply H; try assumption.
+  - apply N.ltb_ge. exact Hdeep.
+  - rewrite Hdf. apply forest_height.
+  - apply add_all_tbl_ok; assumption.
+Qed.
+
+Theorem reads_back_ops_after_save_load_nm d ops cid rid cat fuel2 xt pcat i g ks :
+  let b := add_all (fresh_bdoc d) ops in
+  let f := forest_of_ops (map sop_of ops) in
+  let m0 := d_max_id d in
+  f <> [] -> max_id_bounds d -> m0 + 1 + 2 * N.of_nat (fsize f) + 2 < u32_mod ->
+  root_id d = Some cid -> get_object_mut_id (d_objects d) cid = Some (rid, ODict cat) ->
+  distinct_titles f -> scalar_titles f -> too_deep f = false -> (fsize f <= fuel2)%nat ->
+  savable d -> known_deep d = false -> Forall op_ok ops -> N.of_nat (length ops) < u32_mod ->
+  catalog d = Some pcat -> dict_get pcat K_Pages = Some (ORef i g) ->
+  tree_wf d (PNode (i, g) ks) -> (N.of_nat (height (PNode (i, g) ks)) <= PAGE_TREE_DEPTH_LIMIT + 1)%N ->
+  exists b',
+    build_outline (default_fuel b) b = OOk (Some (m0 + 1, 0), b') /\
+    let d2 := attach (base b') cid (m0 + 1, 0) in
+    savable d2 /\ known_deep d2 = false /\
+    (small_file xt d2 -> targets_are_pages d f ->
+     exists d', load (so_bytes (save xt d2)) = LOk d' (xtype_of xt) /\
+                get_pages d' = get_pages d /\
+                TocNamed.get_toc fuel2 d' = if TocNamed.name_tree_readable d' then TOk (expected_toc d f) 0 else TErr).
+Proof.
+  intros b f m0 Hne Hmax Hlim Hroot Hcat Hdist Hscal Hdeep Hfuel2 S K Hops Hlen Hpcat Hpg Hwf Hh.
+  destruct (add_all_repr d ops) as [Hbase [Hroots [Htr Hdf]]]. fold b f in Hbase, Hroots, Htr, Hdf.
+  pose proof (reads_back_after_save_load_nm b f cid rid cat (default_fuel b) fuel2 xt pcat i g ks Hroots Hne Htr) as H.
+  cbv zeta in H. rewrite Hbase in H. fold m0 in H.
+  apply H; try assumption.
+  - apply N.ltb_ge. exact Hdeep.
+  - rewrite Hdf. apply forest_height.
+  - apply add_all_tbl_ok; assumption.
+Qed.
+
+(* ---------- non-vacuity over the complete model: the example without a name tree, and the example whose catalog has a valid
+   name tree (Proofs/OutlineProofsNamedEx.v), in both formats ---------- *)
+From LV Require Proofs.OutlineProofsNamedEx.
+
+Lemma nd_savable : savable OutlineProofsNamedEx.nd_doc.
+Proof.
+  constructor; cbn [OutlineProofsNamedEx.nd_doc OutlineProofsNamedEx.with_cat d_version d_binary_mark d_trailer d_objects d_max_id app].
+  - vm_compute. reflexivity.
+  - reflexivity.
+  - reflexivity.
+  - vm_compute. discriminate.
+  - cbn [obj_numbers map fst increasing]. repeat split; reflexivity.
+  - repeat (apply Forall_cons; [cbn [fst snd]; split; [vm_compute; discriminate|]; split; [|reflexivity];
+      cbn [top_wf ex_cat OutlineProofsNamedEx.nd_cat app]; repeat (constructor; cbn; try (intuition discriminate)) |]); try apply Forall_nil.
+    all: try (vm_compute; discriminate).
+  - constructor; [repeat constructor; cbn; intuition discriminate|].
+    constructor; [|constructor]. cbn [snd]. constructor; vm_compute; discriminate.
+  - reflexivity.
+  - reflexivity.
+Qed.
+
+Theorem ex_after_save_load_nm :
+  savable ex_doc /\ known_deep ex_doc = false /\ Forall op_ok ex_ops /\ N.of_nat (length ex_ops) < u32_mod /\
+  d_max_id ex_doc + 1 + 2 * N.of_nat (fsize ex_forest) + 2 < u32_mod /\
+  small_file XTable ex_final /\ small_file XStream ex_final /\
+  targets_are_pages ex_final ex_forest /\
+  TocNamed.get_toc 4 (reloaded XTable ex_final) = TOk ex_toc 0 /\
+  TocNamed.get_toc 4 (reloaded XStream ex_final) = TOk ex_toc 0 /\
+  length (d_objects (reloaded XStream ex_final)) = S (length (d_objects ex_final)) /\
+  (* with a name tree *)
+  savable OutlineProofsNamedEx.nd_doc /\ known_deep OutlineProofsNamedEx.nd_doc = false /\
+  d_max_id OutlineProofsNamedEx.nd_doc + 1 + 2 * N.of_nat (fsize ex_forest) + 2 < u32_mod /\
+  small_file XTable OutlineProofsNamedEx.nd_final /\ small_file XStream OutlineProofsNamedEx.nd_final /\
+  TocNamed.name_tree_readable (reloaded XTable OutlineProofsNamedEx.nd_final) = true /\
+  TocNamed.name_tree_readable (reloaded XStream OutlineProofsNamedEx.nd_final) = true /\
+  TocNamed.get_toc 4 (reloaded XTable OutlineProofsNamedEx.nd_final) = TOk ex_toc 0 /\
+  TocNamed.get_toc 4 (reloaded XStream OutlineProofsNamedEx.nd_final) = TOk ex_toc 0.
+Proof.
+  destruct ex_after_save_load as (H1 & H2 & H3 & H4 & H5 & H6 & H7 & H8 & _ & _ & H11).
+  split; [exact H1|]. split; [exact H2|]. split; [exact H3|]. split; [exact H4|]. split; [exact H5|].
+  split; [exact H6|]. split; [exact H7|]. split; [exact H8|].
+  split; [vm_compute; reflexivity|]. split; [vm_compute; reflexivity|]. split; [exact H11|].
+  split; [exact nd_savable|].
+  repeat (split; [vm_compute; reflexivity|]). vm_compute; reflexivity.
+Qed.
